@@ -33,6 +33,7 @@ type Config struct {
 	JSONWire     bool         // pass every message through encoding/json like the TCP transport
 	RefuseJoin   map[int]bool // the application refuses PEER_ADD of these key indexes
 	Liars        map[int]func(tick int) int64
+	SelfOnly     map[int]bool         // nodes started with a peer list that contains only themselves (genesis peers as configured)
 	CommitFault  map[int]map[int]bool // node → numbers of the commit calls that are applied but answered with an error
 	Skew         map[int]int64 // honest nodes whose clock is ahead (or behind) by a constant
 	WrapStore    func(idx int, s hg.Store) hg.Store
@@ -288,8 +289,12 @@ func (c *Cluster) startNode(i int, currentPeers []*peers.Peer, bootstrap bool, f
 				panic(r)
 			}
 		}()
+		cur := clonePeers(currentPeers)
+		if c.Cfg.SelfOnly[i] {
+			cur = []*peers.Peer{mkPeer(i)}
+		}
 		sn.Node = node.NewNode(conf, node.NewValidator(sn.Key, sn.Peer.Moniker),
-			peers.NewPeerSet(clonePeers(currentPeers)), peers.NewPeerSet(clonePeers(c.Genesis)),
+			peers.NewPeerSet(cur), peers.NewPeerSet(clonePeers(c.Genesis)),
 			store, sn.Trans, prox)
 		sn.Node.VStopSignals()
 		if err := sn.Node.Init(); err != nil {
